@@ -52,8 +52,9 @@ def run(ctx):
     clog = os.path.join(ctx.scratch, "tsanctl")
     ctx.run_harness(exe, ["c17", 4, 300, 50, "control"], os.path.join(ctx.scratch, "ctl.ndjson"), env={"TSAN_OPTIONS": "halt_on_error=0 log_path=%s" % clog})
     ctl = "".join(open(p, errors="replace").read() for p in glob.glob(clog + "*"))
-    if "ThreadSanitizer: data race" not in ctl or "Crystal_" not in ctl:
-        raise Broken("positive control failed: unsynchronised insertion into the built-in crystal collection was not reported by ThreadSanitizer")
+    if "ThreadSanitizer: data race" not in ctl or "ctl_probe" not in ctl:
+        raise Broken("positive control failed: an unsynchronised counter in the harness itself was not reported by ThreadSanitizer")
+    ctx.samples.append({"positive_control": "race on the harness's own counter reported", "documented_exception_also_reported": "Crystal_" in ctl})
     ctx.evaluations = ncalls
     return verdict(ctx, "model_checking", {
         "distinct_nontrivial": nev,
